@@ -248,6 +248,20 @@ type Cut struct {
 // returns the first point satisfying target, with the path of blocks taken.
 // A nil result means unreachable under the cut.
 func (g *Graph) Reach(from Point, cut Cut, target func(p Point, n ast.Node) bool) (*Point, []*cfg.Block) {
+	return g.reachEnv(from, nil, cut, target)
+}
+
+// ReachAfter is Reach from the point after site s, knowing what the node at s
+// itself assigned to the tracked variables.
+func (g *Graph) ReachAfter(s Site, cut Cut, target func(p Point, n ast.Node) bool) (*Point, []*cfg.Block) {
+	var env penv
+	if s.P.I < len(s.P.B.Nodes) {
+		env = g.step(nil, s.P.B.Nodes[s.P.I])
+	}
+	return g.reachEnv(s.After(), env, cut, target)
+}
+
+func (g *Graph) reachEnv(from Point, env0 penv, cut Cut, target func(p Point, n ast.Node) bool) (*Point, []*cfg.Block) {
 	type item struct {
 		b    *cfg.Block
 		i    int
@@ -255,7 +269,7 @@ func (g *Graph) Reach(from Point, cut Cut, target func(p Point, n ast.Node) bool
 		prev *item
 	}
 	seen := map[string]bool{}
-	queue := []*item{{from.B, from.I, nil, nil}}
+	queue := []*item{{from.B, from.I, env0, nil}}
 	pathOf := func(it *item) []*cfg.Block {
 		var p []*cfg.Block
 		for x := it; x != nil; x = x.prev {
@@ -438,11 +452,14 @@ const (
 	Unknown Tri = iota
 	True
 	False
+	// Fresh is used by the path search only (pathsens.go): a non-nil error that was just built by
+	// errors.New / fmt.Errorf, hence True and also not identical (==) to any sentinel variable.
+	Fresh
 )
 
 func (t Tri) Not() Tri {
 	switch t {
-	case True:
+	case True, Fresh:
 		return False
 	case False:
 		return True
